@@ -497,16 +497,19 @@ def dhcpHdr (h : Dhcp) : R (Dhcp × Bytes) := do
     .raw (padTo 4 h.magic)]
   pure ({ h with rawOpts := raw }, fx ++ raw)
 
-/-! ## code variants (proposed repairs that change modelled behaviour; which one a tree has is read off its source by
-harness/c14.py `detect_variant` and passed to the driver) -/
+/-! ## code variants (repairs that change modelled behaviour; which one a tree has is found by harness/c14.py
+`detect_variant`, which probes the classes, and passed to the driver) -/
 
 structure XCfg where
-  ripUnsigned : Bool     -- fixes/C14_D50_rip_metric_unsigned.diff: the RIP metric is packed/unpacked with struct 'I'
-  eapBody : Bool         -- fixes/C14_D49_eap_keep_type_data.diff: an EAP request/response keeps type octet + data as payload
+  ripUnsigned : Bool     -- repair D50 (fixes/C14_D50_rip_metric_unsigned.diff): the RIP metric is packed/unpacked with struct 'I'
+  eapBody : Bool         -- repair D49 (fixes/C14_D49_eap_keep_type_data.diff): an EAP request/response keeps type octet + data as payload
   deriving DecidableEq, Repr
 
-/-- /repo as it stands -/
+/-- the tree with the repairs D50 / D49 reverted (kept as a regression witness) -/
 def XCfg.head : XCfg := ⟨false, false⟩
+
+/-- /repo as committed (D50 aea3ecf, D49 0293245) -/
+def XCfg.repo : XCfg := ⟨true, true⟩
 
 /-- struct 'I' -/
 def packU32m (m : Int) : R Bytes :=
